@@ -11,14 +11,14 @@ import (
 )
 
 type dmgObs struct {
-	Kind    string    `json:"kind"` // byte | cut | swap
-	Pos     int       `json:"pos"`
-	Val     int       `json:"val"`
-	OpenErr string    `json:"open_err,omitempty"`
-	Gets    []getOut  `json:"gets,omitempty"`
-	Scan    scanOut   `json:"scan"`
-	From    scanOut   `json:"from"`
-	Mod     []byte    `json:"mod,omitempty"` // the damaged bytes (swap only)
+	Kind    string   `json:"kind"` // byte | cut | swap
+	Pos     int      `json:"pos"`
+	Val     int      `json:"val"`
+	OpenErr string   `json:"open_err,omitempty"`
+	Gets    []getOut `json:"gets,omitempty"`
+	Scan    scanOut  `json:"scan"`
+	From    scanOut  `json:"from"`
+	Mod     []byte   `json:"mod,omitempty"` // the damaged bytes (swap only)
 }
 
 type c09Case struct {
@@ -28,11 +28,11 @@ type c09Case struct {
 	OnRead   bool    `json:"on_read"` // SkipHashCheckOnLoad + EnableHashCheckOnReads instead of the default verify-on-load
 	Vals     []int   `json:"vals"`    // replacement values; -1 = flip lowest bit, -2 = flip highest bit
 	// observations
-	Data  []byte   `json:"data"`
-	Index []byte   `json:"index"`
+	Data   []byte   `json:"data"`
+	Index  []byte   `json:"index"`
 	IdxPay [][]byte `json:"-"`
-	Obs   []dmgObs `json:"obs"`
-	Fatal string   `json:"fatal,omitempty"`
+	Obs    []dmgObs `json:"obs"`
+	Fatal  string   `json:"fatal,omitempty"`
 }
 
 func (c *c09Case) observe(dir string, data []byte, ob *dmgObs) {
@@ -267,8 +267,8 @@ func genC09(r *rand.Rand, tier string) []Case {
 func init() {
 	register(&Prop{
 		ID: "C09", Num: 9,
-		Gen: genC09,
-		New: func() Case { return &c09Case{} },
+		Gen:  genC09,
+		New:  func() Case { return &c09Case{} },
 		Rule: "tables of 3-6 keys (values nil / empty / adversarial, data files of ~100-300 bytes) under each data compression; every byte offset of the data file x {bit 0 flipped, bit 7 flipped, 00, ff, 91, 4c} (all 255 values on some tables in the thorough tier), every truncation length, swaps of neighbouring records; default options (verify on load) and verify-on-read; Get of every key, Scan and ScanStartingAt. Non-trivial: >=2 keys and >10 damages.",
 	})
 }
